@@ -228,7 +228,7 @@ def main(modname, argv=None):
     n_new = 0
     n_known = 0
     not_reproduced = []
-    replay_dir = os.path.join(VERIF, "replays")
+    replay_dir = os.environ.get("VERIF_REPLAY_DIR") or os.path.join(VERIF, "replays")
     max_replays = int(getattr(mod, "MAX_REPLAYS_PER_SIG", 3))
     for sig, vs in sorted(groups.items()):
         k = match_known(vs[0], known)
@@ -313,8 +313,9 @@ def main(modname, argv=None):
         ],
         wall_s=round(wall, 2), violations=n_new,
     )
-    os.makedirs(os.path.join(VERIF, "evidence"), exist_ok=True)
-    with open(os.path.join(VERIF, "evidence", "%s.json" % pid), "w") as f:
+    evdir = os.environ.get("VERIF_EVIDENCE_DIR") or os.path.join(VERIF, "evidence")  # dev runs on mutants write elsewhere
+    os.makedirs(evdir, exist_ok=True)
+    with open(os.path.join(evdir, "%s.json" % pid), "w") as f:
         json.dump(ev, f, indent=1, default=str)
     print("%s %s: configs=%d paths=%d obligations=%d discharged=%d sat=%d inconclusive=%d validated=%d wall=%.1fs solver=%.1fs" % (
         pid, tier, len(cfgs), tot["paths"], tot["obligations"], tot["discharged"], len(violations), len(inconclusive),
